@@ -107,7 +107,7 @@ package providers
 //@ func (p *GoogleProvider) RefreshSessionIfNeeded(s *sessions.SessionState) (bool, error)
 //@   modifies s.AccessToken, s.RefreshDeadline, clock
 //@   ensures [C09] refreshed_means_new_token: result.0 ==> result.1 == nil && called(@RefreshAccessToken#1) && @RefreshAccessToken#1.2 == nil && s.AccessToken == @RefreshAccessToken#1.0 && arg(@RefreshAccessToken#1, 1) == old(s.RefreshToken)
-//@   ensures [C09] provider_error_passed_on: called(@RefreshAccessToken#1) && @RefreshAccessToken#1.2 != nil ==> !result.0 && result.1 == @RefreshAccessToken#1.2
+//@   ensures [C09] provider_error_passed_on: called(@RefreshAccessToken#1) && @RefreshAccessToken#1.2 != nil ==> !result.0 && (@RefreshAccessToken#1.2 != nil ==> result.1 == @RefreshAccessToken#1.2) && (@RefreshAccessToken#1.2 == nil ==> result.1 == nil)
 
 //@ func (p *GoogleProvider) RefreshAccessToken(refreshToken string) (token string, expires time.Duration, err error)
 //@   modifies clock
@@ -125,3 +125,53 @@ package providers
 
 //@ func (p *AmazonCognitoProvider) RefreshAccessToken(refreshToken string) (token string, expires time.Duration, err error)
 //@   modifies clock
+
+// ---- C16: request coalescing (authenticator side) ------------------------------------------------------------
+//@ func (p *SingleFlightProvider) do(endpoint string, key string, fn func() (interface{}, error)) (interface{}, error)
+//@   modifies everything
+//@   ensures [C16] keyed_by_endpoint_and_subject: called(@Do#1) && arg(@Do#1, 0) == old(p.single) && arg(@Do#1, 1) == endpoint + "/" + key && arg(@Do#1, 2) == fn && result.0 == @Do#1.0 && result.1 == @Do#1.2
+//@   let G = old(p.single)
+//@   ensures [C16] executed_at_most_once_here: G.$runs == old(G.$runs) || G.$runs == old(G.$runs) + 1
+
+//@ func (p *SingleFlightProvider) ValidateSessionState(s *sessions.SessionState) bool
+//@   let G = old(p.single)
+//@   let before_runs = old(p.single.$runs)
+//@   ensures [C16] keyed_on_access_token: called(@do#1) && arg(@do#1, 1) == "ValidateSessionState" && arg(@do#1, 2) == old(s.AccessToken)
+//@   ensures [C16] answer_is_the_executions: result ==> @do#1.1 == nil && typeis(@do#1.0, "bool") && unbox(@do#1.0, "bool")
+//@   ensures [C16] merged_caller_gets_the_session_updates: result ==> G.$runs == before_runs + 1
+
+//@ func (p *SingleFlightProvider) RefreshSessionIfNeeded(s *sessions.SessionState) (bool, error)
+//@   let G = old(p.single)
+//@   let before_runs = old(p.single.$runs)
+//@   ensures [C16] keyed_on_refresh_token: called(@do#1) && arg(@do#1, 1) == "RefreshSessionIfNeeded" && arg(@do#1, 2) == old(s.RefreshToken)
+//@   ensures [C16] answer_is_the_executions: result.1 == nil ==> @do#1.1 == nil && typeis(@do#1.0, "bool") && result.0 == unbox(@do#1.0, "bool")
+//@   ensures [C16] error_passed_on: @do#1.1 != nil ==> !result.0 && result.1 == @do#1.1
+//@   ensures [C16] merged_caller_gets_the_session_updates: result.0 ==> G.$runs == before_runs + 1
+
+//@ func (p *SingleFlightProvider) ValidateGroupMembership(email string, allowedGroups []string, accessToken string) ([]string, error)
+//@   ensures [C16] keyed_on_user_and_groups: called(@do#1) && arg(@do#1, 1) == "ValidateGroupMembership" && called(@Strings#1) && arg(@Strings#1, 0) == allowedGroups && called(@Join#1) && arg(@Join#1, 0) == allowedGroups && arg(@Join#1, 1) == "," && arg(@do#1, 2) == email + ":" + @Join#1
+//@   ensures [C16] answer_is_the_executions: result.1 == nil ==> @do#1.1 == nil
+
+// Revocation changes no session field of the caller: a merged caller needs only the execution's verdict.
+//@ func (p *SingleFlightProvider) Revoke(s *sessions.SessionState) error
+//@   ensures [C16] keyed_on_access_token: called(@do#1) && arg(@do#1, 1) == "Revoke" && arg(@do#1, 2) == old(s.AccessToken)
+//@   ensures [C16] answer_is_the_executions: result == @do#1.1
+
+// The new token travels in the execution's result, so a merged caller receives it too.
+//@ func (p *SingleFlightProvider) RefreshAccessToken(refreshToken string) (string, time.Duration, error)
+//@   ensures [C16] keyed_on_refresh_token: called(@do#1) && arg(@do#1, 1) == "RefreshAccessToken" && arg(@do#1, 2) == refreshToken
+//@   ensures [C16] error_passed_on: @do#1.1 != nil ==> result.2 == @do#1.1
+//@   ensures [C16] merged_caller_gets_the_token: result.2 == nil ==> @do#1.1 == nil && typeis(@do#1.0, "*auth/providers.Response") && result.0 == unbox(@do#1.0, "*auth/providers.Response").AccessToken && result.1 == unbox(@do#1.0, "*auth/providers.Response").ExpiresIn
+
+//@ func (p *SingleFlightProvider) ValidateSessionState$1() (interface{}, error)
+//@   ensures [C16] runs_wrapped_validate_for_this_session: called(@ValidateSessionState#1) && arg(@ValidateSessionState#1, 0) == p.provider && arg(@ValidateSessionState#1, 1) == s && typeis(result.0, "bool") && unbox(result.0, "bool") == @ValidateSessionState#1 && result.1 == nil
+
+//@ func (p *SingleFlightProvider) RefreshSessionIfNeeded$1() (interface{}, error)
+//@   ensures [C16] runs_wrapped_refresh_for_this_session: called(@RefreshSessionIfNeeded#1) && arg(@RefreshSessionIfNeeded#1, 0) == p.provider && arg(@RefreshSessionIfNeeded#1, 1) == s && typeis(result.0, "bool") && unbox(result.0, "bool") == @RefreshSessionIfNeeded#1.0 && result.1 == @RefreshSessionIfNeeded#1.1
+
+//@ func (p *SingleFlightProvider) Revoke$1() (interface{}, error)
+//@   ensures [C16] runs_wrapped_revoke_for_this_session: called(@Revoke#1) && arg(@Revoke#1, 0) == p.provider && arg(@Revoke#1, 1) == s && result.1 == @Revoke#1
+
+//@ func (p *SingleFlightProvider) RefreshAccessToken$1() (interface{}, error)
+//@   ensures [C16] runs_wrapped_refresh_for_this_token: called(@RefreshAccessToken#1) && arg(@RefreshAccessToken#1, 0) == old(p.provider) && arg(@RefreshAccessToken#1, 1) == old(refreshToken) && (@RefreshAccessToken#1.2 != nil ==> result.1 == @RefreshAccessToken#1.2) && (@RefreshAccessToken#1.2 == nil ==> result.1 == nil)
+//@   ensures [C16] result_carries_the_new_token: result.1 == nil ==> typeis(result.0, "*auth/providers.Response") && unbox(result.0, "*auth/providers.Response").AccessToken == @RefreshAccessToken#1.0 && unbox(result.0, "*auth/providers.Response").ExpiresIn == @RefreshAccessToken#1.1
